@@ -47,6 +47,8 @@ pub struct Flavor {
     pub refgen_pct: u32,
     /// per-mille probability that a step carries a hard device error (the run then ends with the relaxed oracle)
     pub hard_fault_pm: u32,
+    /// percentage of mutating calls that meet one transient storage error and are then simply tried again
+    pub retry_fault_pct: u64,
 }
 
 pub fn base_flavor(prop: &'static str) -> Flavor {
@@ -64,6 +66,7 @@ pub fn base_flavor(prop: &'static str) -> Flavor {
         max_cluster_bytes: 65536,
         refgen_pct: 0,
         hard_fault_pm: 0,
+        retry_fault_pct: 0,
     }
 }
 
@@ -247,10 +250,12 @@ pub fn draw_cfg(r: &mut Rng, fl: &Flavor) -> RunCfg {
         });
     }
     if fat == 32 && r.chance(1, 3) {
-        v.hint = Some(match r.below(4) {
+        v.hint = Some(match r.below(5) {
             0 => 0xFFFF_FFFF,
             1 => 2,
             2 => 0,
+            // cluster numbers around the 16-bit word boundary (low word zero / high word becomes non-zero)
+            3 => (0x1_0000 + r.range(0, 4) - 2) as u32,
             _ => r.range(2, 70_100) as u32,
         });
     }
@@ -303,6 +308,9 @@ pub fn engine_outcome(seed: u64, fl: &Flavor) -> RunOutcome {
         b.steps = r.range(5, 40) as usize;
         let mut src = Phased { a: Gen::new(gseed, a), b: Gen::new(gseed ^ 0x5555, b), stage: 0 };
         exec::run(cfg.clone(), fl.prop, &mut src, max_steps + 80)
+    } else if fl.retry_fault_pct > 0 {
+        let mut g = crate::c14::FaultyFlush { g: Gen::new(gseed, prof), rng: Rng::new(gseed ^ 0xFA17), pending: None, pct: fl.retry_fault_pct, which: crate::c14::is_mutating };
+        exec::run(cfg.clone(), fl.prop, &mut g, max_steps * 2)
     } else {
         let mut g = Gen::new(gseed, prof);
         exec::run(cfg.clone(), fl.prop, &mut g, max_steps)
@@ -343,6 +351,15 @@ pub fn engine_batches(prop: &'static str, tier: &str, seed: u64) -> Vec<Batch<'s
         f3.hard_fault_pm = 60;
         let n3 = n_benign;
         out.push(Batch { name: "C03-hard-fault(one hard device error, then the relaxed structural check)".into(), runs: n3, f: Box::new(move |i| engine_outcome(crate::rng::run_seed(seed, 3, i), &f3)) });
+    }
+    if prop == "C12" {
+        // a transient storage error inside a mutating call, the caller tries again: the status-byte rules need no model
+        // and stay in force for the rest of the run
+        let mut f4 = fl.clone();
+        f4.retry_fault_pct = 25;
+        f4.oracles.fault_resilient = true;
+        let n4 = n_benign;
+        out.push(Batch { name: "C12-transient-storage-error-then-retry(status-byte rules only after the first error)".into(), runs: n4, f: Box::new(move |i| engine_outcome(crate::rng::run_seed(seed, 4, i), &f4)) });
     }
     if !matches!(prop, "C13") {
         out.push(Batch { name: format!("{}-benign-faults(eintr,short_read,short_write)", prop), runs: n_benign, f: Box::new(move |i| engine_outcome(crate::rng::run_seed(seed, 2, i), &f2)) });
